@@ -1435,16 +1435,16 @@ func (c *Conn) readLine() (string, error) {
 		// were a complete line; it must not be executed.
 		return "", ErrTooLongLine
 	}
-	if limit := c.server.MaxLineLength; err == nil && limit > 0 && len(line)+1 > limit {
-		// The line was buffered while the limit was lifted for a BDAT chunk.
-		return "", ErrTooLongLine
-	}
 	if r := c.lineLimitReader; err == nil && r.err != nil && r.last != '\n' && c.text.R.Buffered() == 0 {
 		// The connection has failed (the peer is gone, a timeout) and this is
 		// what was left of the input, not terminated by a line feed: bufio
 		// hands it out as if it were a line, but a command that was cut
 		// short must not be executed.
 		return "", r.err
+	}
+	if limit := c.server.MaxLineLength; err == nil && limit > 0 && len(line)+1 > limit {
+		// The line was buffered while the limit was lifted for a BDAT chunk.
+		return "", ErrTooLongLine
 	}
 	return line, err
 }
